@@ -187,13 +187,10 @@ Fixpoint parse_table_f (fuel : nat) (b : bytes) : outcome (list hdr) :=
   match fuel with
   | O => Fuel
   | S k =>
-    match b with
-    | [] => Ok []
-    | _ :: _ =>
-      match dec_hdr b with
-      | None => Err E_PARSE
-      | Some h => do r <- parse_table_f k (zskipn hdr_len b); Ok (h :: r)
-      end
+    if zlen b =? 0 then Ok [] else                       (* r.Len() > 0 *)
+    match dec_hdr b with
+    | None => Err E_PARSE
+    | Some h => do r <- parse_table_f k (zskipn hdr_len b); Ok (h :: r)
     end
   end.
 Definition parse_table (b : bytes) : outcome (list hdr) := parse_table_f (S (length b)) b.
@@ -401,6 +398,8 @@ Definition layout_ok (img : bytes) (off : Z) (es : list entry) : bool :=
   pairwise_disjoint (ranges (zlen img) off es).
 
 Definition in_range (k : Z) (r : Z * Z) : bool := (fst r <=? k) && (k <? fst r + snd r).
+(* byte index k lies in none of the ranges *)
+Definition untouched (k : Z) (rs : list (Z * Z)) : bool := forallb (fun r => negb (in_range k r)) rs.
 
 (* the entry as GetEntries reports it: unsupported kinds carry a HeadersErrors *)
 Definition as_read (e : entry) : entry :=
@@ -413,6 +412,7 @@ Definition shape_ok (e : entry) : bool :=
   let n := zlen (e_data e) in
   wf_hdr (e_hdr e) && bytes_ok (e_data e) && (e_err e =? 0) &&
   ((k =? K_UNKNOWN) || registered k) &&
+  negb ((k =? fit_type_diagnostic_acm) || (k =? fit_type_tpm_policy)) &&  (* "not supported, yet" *)
   (if k =? K_UNKNOWN then negb (registered (htype (e_hdr e))) else true) &&
   (if k =? fit_type_fit_header then n =? 0
    else if k =? fit_type_txt_policy then true
